@@ -186,6 +186,28 @@ def r6(ctx, rep):
         rep.ok("signature-comment")
 
 
+def r7(ctx, rep):
+    rep.rule("C18.R7", "the header that is consulted is the one declared next to the main pipeline", floor=2)
+    syn = ctx.syn
+    f = syn.fn("RootModule::find_query_def", crate="prqlc")
+    st = None
+    for n in walk(f["body"]):
+        if n.get("k") == "struct" and last_seg(n["p"]) == "Ident":
+            st = {a: show(b) for a, b in n["f"]}
+    rep.check(st is not None and st.get("path") == "main.path.clone()" and st.get("name") == "NS_QUERY_DEF.to_string()", "same-module",
+              f"the `prql ..` header must be looked up in the module that declares the main pipeline (path = main.path); found {st}: with the main pipeline in a sub-module its own `target:` would be ignored",
+              file=f["file"], line=f["l"], fn=f["path"])
+    lo = syn.fn("lowering::lower_to_ir", crate="prqlc")
+    txt = show_stmts(lo["body"], maxdepth=8)
+    rep.check("root_mod.find_query_def(&main_ident)" in txt and "def.cloned().unwrap_or_default()" in txt, "def-from-main",
+              "the RQ's def must be the header found for the main pipeline (default when absent)", file=lo["file"], line=lo["l"], fn=lo["path"])
+    q = None
+    for n in walk(lo["body"]):
+        if n.get("k") == "struct" and last_seg(n["p"]) == "RelationalQuery":
+            q = {a: show(b) for a, b in n["f"]}
+    rep.check(q is not None and q.get("def") == "def", "def-into-rq", "RelationalQuery.def must carry that header to the SQL back-end", file=lo["file"], line=lo["l"], fn=lo["path"])
+
+
 def run(ctx, rep):
-    for r in (r1, r2, r3, r4, r5, r6):
+    for r in (r1, r2, r3, r4, r5, r6, r7):
         rep.guard(r, ctx)
